@@ -4,8 +4,9 @@
 # property's check against it: the expected outcome is exit 0 (no alarm).
 set -u
 PATCH=$1; P=$2; TIER=${3:-quick}
+VR=${VERIF_ROOT:-/verif}   # run the check from another worktree of /verif (own tree lock)
 WT=/var/tmp/refwt-$P-$$
 git -C /repo worktree add -q --detach $WT HEAD || exit 3
 (cd $WT && git apply $PATCH) || { echo "patch does not apply"; git -C /repo worktree remove --force $WT; exit 3; }
-(cd /verif && VERIF_REPO=$WT ./check $P --tier $TIER 2>&1 | grep -v "^KNOWN-FINDING\|^WARNING" | tail -4; echo "exit ${PIPESTATUS[0]}")
+(cd $VR && VERIF_REPO=$WT ./check $P --tier $TIER 2>&1 | grep -v "^KNOWN-FINDING\|^WARNING" | tail -4; echo "exit ${PIPESTATUS[0]}")
 git -C /repo worktree remove --force $WT
